@@ -16,6 +16,10 @@ GEN_ITERS_TRUST = [
     "tools/gen_iters.py (translator, same tokenizer/parser as gen_layout.py: regenerates lean/MultiModel/Gen/IterGen.lean — extensions_t from_linear/to_linear/next_canonical/prev_canonical, array_iterator (D>1, D=1) and elements_iterator_t/elements_range_t operators — from the current headers on every run; MultiProofs/GenTieIter.lean proves each regenerated function equal to the hand model MultiModel/Iter.lean)",
 ]
 
+GEN_STORE_TRUST = [
+    "tools/gen_store.py (translator, same tokenizer/parser as gen_layout.py: regenerates lean/MultiModel/Gen/StoreGen.lean — elements_range_t assignment/swap/==/!=, every subarray::operator= taking a view, subarray::swap, the comparison operators of const_subarray for D>1 and D=1 including the bodies of lexicographical_compare — from the current array_ref.hpp on every run; MultiProofs/GenTieStore.lean proves each regenerated function equal to the hand model MultiModel/Store.lean; the glue definition lexRowsOf (how begin()/end() feed adl_lexicographical_compare) is part of the translator's prelude)",
+]
+
 VIEW_RULE = ("programs = root extents (D 1..4, sizes 0..6, num_elements <= 240) + 0..7 in-domain view operations drawn from the real view's "
              "current shape + queries; distinct = different program text; non-trivial = at least one operation and a queried view with >= 2 elements")
 
